@@ -51,6 +51,10 @@ pub struct Case {
     /// program that defines the same names with other parameter lists is compiled first
     #[serde(default)]
     pub macros: Vec<(String, u8)>,
+    /// a table of literal pointers declared after the functions, made of literals that the functions have
+    /// already used (several identical literals exist by then)
+    #[serde(default)]
+    pub late_table: bool,
 }
 
 impl Reducible for Case {
@@ -165,7 +169,7 @@ pub fn gen_case(g: &mut G) -> Case {
             order.insert(newpos, k);
         }
     }
-    Case { nvars, tables, funs, order, broken: g.chance(1, 10), opt: g.below(2) as u8, macros }
+    Case { nvars, tables, funs, order, broken: g.chance(1, 10), opt: g.below(2) as u8, macros, late_table: g.chance(1, 2) }
 }
 
 pub fn source(c: &Case) -> String {
@@ -261,7 +265,37 @@ pub fn source_shifted(c: &Case, shift: u8) -> String {
         }
         s.push_str("}\n");
     }
+    let mut late = false;
+    if c.late_table {
+        // the literals of the function bodies, most frequent first
+        let mut words: Vec<String> = vec![];
+        for f in &c.funs {
+            for b in &f.body {
+                match b {
+                    FnBody::LiteralCall { lits, .. } => words.extend(lits.iter().cloned()),
+                    FnBody::PtrAssign(w) => words.push(w.clone()),
+                    FnBody::SameThrice(w) => words.extend([w.clone(), w.clone(), w.clone()]),
+                    FnBody::LocalInit(l) | FnBody::TernaryAssign(l) => words.extend(l.iter().cloned()),
+                    _ => {}
+                }
+            }
+        }
+        let mut uniq: Vec<String> = vec![];
+        for w in &words {
+            if !uniq.contains(w) {
+                uniq.push(w.clone());
+            }
+        }
+        uniq.sort_by_key(|w| std::cmp::Reverse(words.iter().filter(|x| *x == w).count()));
+        if uniq.len() >= 2 {
+            s.push_str(&format!("const char *late[] = {{\"{}\", \"{}\", \"{}\"}};\n", uniq[1], uniq[0], uniq[0]));
+            late = true;
+        }
+    }
     s.push_str("void main()\n{\n");
+    if late {
+        s.push_str("  gp = late[1];\n");
+    }
     for f in &c.funs {
         if f.nparams == 0 && !f.interrupt {
             s.push_str(&format!("  {}();\n", f.name));
